@@ -473,6 +473,21 @@ SYMMETRIC = {"number_cross_links": "", "cross_link_density": "", "cross_average_
              "nsi_cross_average_path_length": "", "cross_adjacency": "T",
              "cross_adjacency_sparse": "T",
              "cross_link_attribute": "T", "cross_path_lengths": "T"}
+# the theorem of Properties/C11.lean behind each both-orders relation (round 5d: the betweenness
+# is no longer a relation on the implementation only - crossBetweenness_symm /
+# nsiCrossBetweenness_symm hold for every undirected network and duplicate-free lists; the lists
+# of the harness are duplicate-free, so a failure of the relation contradicts the theorem or the
+# correspondence of the kernel model)
+SYMMETRIC_THEOREM = {"number_cross_links": "numberCrossLinks_symm",
+                     "cross_link_density": "crossLinkDensity_symm",
+                     "cross_average_path_length": "crossAPL_symm / unweighted_symmetric_in_groups",
+                     "global_efficiency": "globalEfficiency_symm",
+                     "nsi_cross_edge_density": "nsiCrossEdgeDensity_symm",
+                     "cross_betweenness": "crossBetweenness_symm (round 5d, via Nsi.wcount_rev: "
+                                          "walk counts are symmetric under reversal)",
+                     "nsi_cross_betweenness": "nsiCrossBetweenness_symm (round 5d)",
+                     "cross_adjacency": "block_swap", "cross_adjacency_sparse": "block_swap",
+                     "cross_link_attribute": "block_swap", "cross_path_lengths": "block_swap"}
 SPARSE_PAIRS = [("cross_transitivity", "cross_transitivity_sparse"),
                 ("cross_local_clustering", "cross_local_clustering_sparse"),
                 ("cross_global_clustering", "cross_global_clustering_sparse")]
@@ -767,6 +782,11 @@ def run(ctx):
         "crossBetweenness_eq_count (round 5b) - no longer a hypothesis; the kernel model is still "
         "compared with the definition inside Lean on a sample of the cases and with the "
         "implementation on every case; the tie of that model to numerics.pyx is C03's",
+        "symmetry of cross_betweenness / nsi_cross_betweenness in the two groups (round 5d: theorems "
+        "crossBetweenness_symm / nsiCrossBetweenness_symm about the kernel model, undirected "
+        "networks, duplicate-free lists) rests on C02's/C03's Nsi.kernel_eq_nsiBetw_net (kernel "
+        "model = double sum over weighted walk counts, imported lemma file); the both-orders "
+        "relation on the implementation now confirms a theorem instead of standing in for one",
         "Pyunicorn.Net (model of Network.degree / average_path_length / closeness / "
         "local_clustering / transitivity used by the whole_* theorems) is tied to the "
         "implementation by C03's correspondence, not by this check"]
@@ -1622,7 +1642,9 @@ def relations(ctx, cases, impl_results, IN, quick):
                     extra["input_class"] = classify_nsi_apl(c, L1, L2)
                 ctx.fail(sig(nm, "symmetric-in-groups", c, extra),
                          f"{nm} differs between ({L1}, {L2}) and ({L2}, {L1}) on an undirected "
-                         f"network",
+                         f"network" + (f" - the model is symmetric by theorem "
+                                       f"{SYMMETRIC_THEOREM[nm]}" if nm in SYMMETRIC_THEOREM
+                                       else ""),
                          replay_of(c, L1, L2, method=nm, forward=str(fwd), reverse=str(rev)))
     # ---- numpy arrays as node lists -----------------------------------------
     sub = [x for x in zip(cases, impl_results) if rng.random() < (0.15 if quick else 0.3)]
